@@ -124,6 +124,21 @@ def gen_doc_bytes(rng: random.Random) -> bytes:
         body = body.rstrip("\n") + "\n\n" + corpus.DISCRIMINATING_DOC
     if rng.random() < 0.12:
         body = body.replace("\n", "\r\n")
+    if rng.random() < 0.07:
+        # valid UTF-8 that is unusual in text: NUL and other controls, the characters that
+        # str.splitlines() (but not a file in text mode) treats as line ends, a lone CR
+        # (never inside [...]: a TAB / FF / CR in a footnote label sends marko's FootnoteDef into an
+        # endless loop - a defect of the dependency in C12's domain, see DESIGN section 11)
+        for _ in range(rng.randint(1, 3)):
+            ch = rng.choice(["\x00", "\x00", "\x0b", "\x1c", "\x1d", "\x1e", "\x85", "\u2028", "\u2029", "\r", "\x1b", "\x7f", "\ufffe"])
+            lines = body.split("\n")
+            ok = [i for i, ln in enumerate(lines) if "[" not in ln and "]" not in ln]
+            if not ok:
+                break
+            i = rng.choice(ok)
+            k = rng.randrange(len(lines[i]) + 1)
+            lines[i] = lines[i][:k] + ch + lines[i][k:]
+            body = "\n".join(lines)
     return body.encode("utf-8")
 
 
